@@ -24,6 +24,10 @@ Definition R_integrand (Wp Ws L tanrho z1 z2 : R) : R :=
 Definition R_walkoff (Wp Ws L tanrho : R) : R :=
   / 4 * RInt (fun z1 => RInt (fun z2 => R_integrand Wp Ws L tanrho z1 z2) (-1) 1) (-1) 1.
 
+(* argument of F: L tan(rho) over the 1/e overlap radius of the walked-off pump with the product of the two collection
+   modes, sqrt(Wp² + Wsi²) with 1/Wsi² = 1/Ws² + 1/Wi² (the property text leaves x implicit) *)
+Definition walk_x (Wp Ws Wi L tanrho : R) : R := Rabs (L * tanrho) / sqrt (Wp ^ 2 + / (/ Ws ^ 2 + / Wi ^ 2)).
+
 (* the property's limit value of  coincidence intensity / signal-singles intensity  at perfect phase matching *)
-Definition limit_ratio (Wp Ws Wi L tanrho x : R) : R :=
-  eta Wi (W_h Wp Ws) * F_walkoff x ^ 2 / R_walkoff Wp Ws L tanrho.
+Definition limit_ratio (Wp Ws Wi L tanrho : R) : R :=
+  eta Wi (W_h Wp Ws) * F_walkoff (walk_x Wp Ws Wi L tanrho) ^ 2 / R_walkoff Wp Ws L tanrho.
